@@ -208,7 +208,7 @@ def gen_range(rng, pool, single_p=0.5):
     return (a, b)
 
 
-def gen_atom(rng, ids, tagnames):
+def gen_atom(rng, ids, tagnames, intag=False):
     r = rng.random()
     if tagnames and r < 0.22:
         t = rng.choice(tagnames)
@@ -237,54 +237,130 @@ def gen_atom(rng, ids, tagnames):
         return ("proto", rng.choice([["tcp"], ["udp"], ["tcp", "udp"], ["sctp"]]))
     key = rng.choice(["ftime", "ltime", "time"])
     pool = [0, 60, 61, 120, 300, 305, 600, 900, 1200, 3600, 7200, 7260]
+    if intag:
+        # known finding tag-inline-reftime: an inlined definition is evaluated with the outer query's reference
+        # time, so its absolute bounds drift by the time between the two Parse calls (here: microseconds).
+        # Bounds at hh:mm:45 are never hit exactly by a generated stream time, so the drift cannot show here;
+        # the finding itself is exercised by the dedicated `tagdelay` case.
+        pool = [45, 105, 345, 645, 945, 1245, 3645, 7245]
     return ("time", key, [gen_range(rng, pool, 0.25) for _ in range(rng.choice([1, 1, 2]))])
 
 
-def gen_expr(rng, ids, tagnames, depth):
+def gen_expr(rng, ids, tagnames, depth, intag=False):
     r = rng.random()
     if depth == 0 or r < 0.35:
-        a = gen_atom(rng, ids, tagnames)
+        a = gen_atom(rng, ids, tagnames, intag)
         if rng.random() < 0.2:
             return ("not", a)
         return a
     if r < 0.65:
-        return ("and", [gen_expr(rng, ids, tagnames, depth - 1) for _ in range(rng.choice([2, 2, 3]))], rng.random() < 0.3)
+        return ("and", [gen_expr(rng, ids, tagnames, depth - 1, intag) for _ in range(rng.choice([2, 2, 3]))], rng.random() < 0.3)
     if r < 0.9:
-        return ("or", [gen_expr(rng, ids, tagnames, depth - 1) for _ in range(rng.choice([2, 2, 3]))])
-    return ("not", gen_expr(rng, ids, tagnames, depth - 1))
+        return ("or", [gen_expr(rng, ids, tagnames, depth - 1, intag) for _ in range(rng.choice([2, 2, 3]))])
+    return ("not", gen_expr(rng, ids, tagnames, depth - 1, intag))
+
+
+def dnf_cost(e, tagexprs):
+    """Rough (number of conjuncts, widest conjunct) of the DNF the parser builds; NOT is a product."""
+    k = e[0]
+    if k == "and":
+        n, w = 1, 0
+        for x in e[1]:
+            a, b = dnf_cost(x, tagexprs)
+            n, w = min(10 ** 9, n * a), w + b
+        return n, w
+    if k == "or":
+        cs = [dnf_cost(x, tagexprs) for x in e[1]]
+        return sum(c[0] for c in cs), max(c[1] for c in cs)
+    if k == "not":
+        n, w = dnf_cost(e[1], tagexprs)
+        if n > 40:
+            return 10 ** 9, n
+        return min(10 ** 9, max(1, w) ** n), n
+    if k == "num":
+        f = 2 if e[1] in ("port", "bytes") else 1
+        return f * len(e[2]), 2
+    if k == "host":
+        return (2 if e[1] == "host" else 1) * len(e[2]), 1
+    if k == "proto":
+        return len(e[1]), 1
+    if k == "time":
+        return len(e[2]), 2
+    if k == "tag":
+        n, w = dnf_cost(tagexprs["%s/%s" % (e[1], e[2])], tagexprs)
+        n2, w2 = dnf_cost(("not", tagexprs["%s/%s" % (e[1], e[2])]), tagexprs)
+        return 1 + max(n, n2), 1 + max(w, w2)
+    raise ValueError(e)
+
+
+def cheap(e, tagexprs, cap=48):
+    try:
+        n, w = dnf_cost(e, tagexprs)
+        n2, w2 = dnf_cost(("not", e), tagexprs)
+    except OverflowError:
+        return False
+    return n <= cap and n2 <= 4 * cap
+
+
+def gen_cheap_expr(rng, ids, tagnames, depth, tagexprs, intag=False):
+    for _ in range(200):
+        e = gen_expr(rng, ids, tagnames, depth, intag)
+        if not intag and len(tagnames) >= 2 and rng.random() < 0.12:
+            # several tag conditions in one conjunct (each undecided tag multiplies the conjunct when inlined)
+            ts = [("tag",) + tuple(t.split("/")) for t in rng.sample(tagnames, rng.randrange(2, len(tagnames) + 1))]
+            ts = [("not", t) if rng.random() < 0.2 else t for t in ts]
+            e = ("and", ts + ([e] if rng.random() < 0.3 else []), False)
+        if cheap(e, tagexprs):
+            return e
+    return gen_atom(rng, ids, [])
 
 
 def gen_tags(rng, pop):
+    """Tags carry their definition (text + AST) and a per-stream state:
+    0 = decided (bit = truth), 1 = undecided with stale bit clear, 2 = undecided with stale bit set."""
     vis = visible_of(pop)
     ids = sorted(vis)
     ntags = rng.choice([0, 0, 1, 2, 3, 3, 4])
     names = ["tag/a", "service/b", "mark/c", "tag/d"][:ntags]
-    tags, truth, exprs = [], {}, {}
+    tags, exprs = [], {}
     for i, name in enumerate(names):
         if name.startswith("mark/"):
             e = ("num", "id", [(x,) for x in sorted(rng.sample(ids, rng.randrange(1, min(len(ids), 4) + 1)))])
         else:
-            e = gen_expr(rng, ids, names[:i] if rng.random() < 0.5 else [], rng.choice([0, 1, 1, 2]))
+            e = gen_cheap_expr(rng, ids, names[:i] if rng.random() < 0.5 else [], rng.choice([0, 1, 1, 2]), exprs, True)
         exprs[name] = e
-        truth[name] = {sid: eval_expr(e, vis[sid], truth) for sid in ids}
         mode = rng.choice(["certain", "uncertain", "mixed", "mixed", "mixed"])
-        matches, uncertain = [], []
+        state = {}
         for sid in ids:
             unc = mode == "uncertain" or (mode == "mixed" and rng.random() < 0.4)
-            if unc:
-                uncertain.append(sid)
-                if rng.random() < 0.5:  # stale bit
-                    matches.append(sid)
-            elif truth[name][sid]:
-                matches.append(sid)
-        tags.append({"name": name, "def": text_of(e), "matches": matches, "uncertain": uncertain})
-    return tags, truth, exprs
+            state[str(sid)] = (1 + (rng.random() < 0.5)) if unc else 0
+        tags.append({"name": name, "def": text_of(e), "expr": e, "state": state})
+    pop["tags"] = tags
+    return finish_tags(pop), exprs
 
 
-def gen_search(rng, pop, tagnames):
+def finish_tags(pop):
+    """(Re)computes the truth of every tag on the visible streams and from it the match/uncertain bitmaps:
+    every decided bit is correct, undecided bits are arbitrary (stale)."""
+    vis = visible_of(pop)
+    truth = {}
+    for t in pop["tags"]:
+        truth[t["name"]] = {sid: eval_expr(t["expr"], vis[sid], truth) for sid in vis}
+        t["matches"], t["uncertain"] = [], []
+        for sid in sorted(vis):
+            st = t["state"].get(str(sid), 0)
+            if st:
+                t["uncertain"].append(sid)
+            if st == 2 or (st == 0 and truth[t["name"]][sid]):
+                t["matches"].append(sid)
+    pop["_truth"] = truth
+    return truth
+
+
+def gen_search(rng, pop, tagnames, tagexprs):
     vis = visible_of(pop)
     ids = sorted(vis)
-    e = gen_expr(rng, ids, tagnames, rng.choice([0, 1, 1, 2, 2, 3]))
+    e = gen_cheap_expr(rng, ids, tagnames, rng.choice([0, 1, 1, 2, 2, 3]), tagexprs)
     nkeys = rng.choice([0, 1, 1, 2, 2, 3])
     sort = [[rng.choice(SORTKEYS), rng.choice([0, 1])] for _ in range(nkeys)]
     limit = rng.choice(LIMITS)
@@ -349,31 +425,31 @@ def parse_result(line):
 
 
 def judge(pop, sr, sp, res):
-    """Property verdict on an implementation (or model) observation. Returns None or a reason."""
+    """Property verdict on an implementation (or model) observation. Returns None or (kind, reason)."""
     if res["status"] != "OK":
-        return "status " + res["raw"][:200]
+        return "status", res["raw"][:300]
     vis = visible_of(pop)
     sort = sr["sort"] or [["ftime", 1]]
     ids = [s["id"] for s in res["streams"]]
     if len(set(ids)) != len(ids):
-        return "a stream is listed twice: %s" % ids
+        return "duplicate", "a stream is listed twice: %s" % ids
     for s in res["streams"]:
         if s["id"] not in vis:
-            return "unknown stream id %d" % s["id"]
+            return "unknown", "unknown stream id %d" % s["id"]
         v = vis[s["id"]]
         for f in ("file", "ft", "lt", "cb", "sb", "cp", "sp", "ch", "sh", "proto"):
             if f in s and s[f] != v[f]:
-                return "stream %d: stale or wrong version returned (%s=%s, visible version has %s)" % (s["id"], f, s[f], v[f])
+                return "stale", "stream %d: stale or wrong version returned (%s=%s, visible version has %s)" % (s["id"], f, s[f], v[f])
         if s["id"] not in sp["matching"]:
-            return "stream %d does not satisfy the query / id restriction" % s["id"]
+            return "nomatch", "stream %d does not satisfy the query / id restriction" % s["id"]
     if len(ids) != sp["n"]:
-        return "page has %d streams, expected %d (matching %d, limit %d, skip %d): got %s, e.g. %s" % (
+        return "length", "page has %d streams, expected %d (matching %d, limit %d, skip %d): got %s, e.g. %s" % (
             len(ids), sp["n"], len(sp["matching"]), sr["limit"], sr["skip"], ids, sp["page_ids"])
     keys = [[(vis[i][KEYFIELD[k]]) for k, _ in sort] for i in ids]
     if keys != sp["keys"]:
-        return "order/page differs: got ids %s, expected (up to ties) %s" % (ids, sp["page_ids"])
+        return "order", "order/page differs: got ids %s, expected (up to ties) %s" % (ids, sp["page_ids"])
     if res["more"] != sp["more"]:
-        return "more flag %s, expected %s" % (res["more"], sp["more"])
+        return "more", "more flag %s, expected %s" % (res["more"], sp["more"])
     return None
 
 
@@ -432,38 +508,3 @@ def model_as_result(pop, m):
     return {"status": "OK", "more": m["more"], "streams": streams, "raw": ""}
 
 
-# ------------------------------------------------------------------ main
-def gen_cases(rng, npops, nsearch):
-    pops = []
-    for i in range(npops):
-        pop = gen_population(rng, "g%d" % i)
-        tags, truth, exprs = gen_tags(rng, pop)
-        pop["tags"] = tags
-        pop["_truth"] = truth
-        names = [t["name"] for t in tags]
-        pop["searches"] = [gen_search(rng, pop, names) for _ in range(nsearch)]
-        pops.append(pop)
-    return pops
-
-
-def public(pop):
-    return {k: v for k, v in pop.items() if not k.startswith("_")}
-
-
-def main(tier, seed, replay=None):
-    t0 = time.time()
-    rng = random.Random(seed)
-    pops = gen_cases(rng, 60 if tier == "quick" else 1500, 35)
-    impl, model, note, dt = execute(pops, None, "main", want_model=False)
-    bad = 0
-    for pi, pop in enumerate(pops):
-        for si, sr in enumerate(pop["searches"]):
-            sp = spec(pop, pop["_truth"], sr)
-            res = impl.get((pi, si), {"status": "MISSING", "raw": "no line"})
-            why = judge(pop, sr, sp, res)
-            if why:
-                bad += 1
-                if bad <= 40:
-                    print(pi, si, repr(sr["q"]), sr["sort"], sr["limit"], sr["skip"], sr["ids"], "->", why)
-    print("searches", sum(len(p["searches"]) for p in pops), "bad", bad, "note", note, "go %.1fs" % dt)
-    return 1 if bad else 0
